@@ -144,6 +144,7 @@ PROPS = {
         not_yet_proved=[],
     ),
     "C12": dict(
+        extra_modules=["CstModel.Proofs.Chunks", "CstModel.Proofs.ChunksTree"],
         runs=runs([("text", "release")], [("text", "release"), ("text", "debug"), ("text", "lasso")]),
         rule="cases = every text of <= 3 (thorough 4) characters over {a, é, →} + 120 (thorough 1500) random texts of 4-17 characters over {a, b, +, é, →}; each is "
              "built as a tree in one of 4 chunkings (whole / 1 char / 2 chars / random 1-3, with empty tokens, empty nodes, nested nodes, static tokens) "
@@ -154,8 +155,7 @@ PROPS = {
              "string / a longer string / a prefix / a one-character variant (4 directions); == between all (or 60 random) ordered pairs of views; "
              "non-trivial = an answer was compared with the materialised string; distinct = distinct op text",
         assumptions=["views have character-boundary ends (the documented domain of the string operations); chunk slicing at other offsets panics in both model and code and is outside the property"],
-        not_yet_proved=["chunks_tree: the chunk list of a view (tokens_with_ranges + per-token slices) concatenates to the slice of the node's text at the view's range "
-                        "(tree-level; the list-level theorems take the chunk list as given; tied by correspondence and by the oracle, which checks the concatenation for every view)"],
+        not_yet_proved=["chunks_tree is stated for slices that exist (both ends on character boundaries): that a view cut inside a character makes the query that reaches the cut panic is tied by correspondence only"],
     ),
     "C13": dict(
         runs=runs([("queries", "release")], [("queries", "release"), ("queries", "debug")]),
@@ -178,6 +178,7 @@ PROPS = {
         not_yet_proved=[],
     ),
     "C16": dict(
+        extra_modules=["CstModel.Proofs.SerRed"],
         runs=runs([("serde", "release")], [("serde", "release"), ("serde", "debug"), ("serde", "lasso")]),
         rule="cases = 300 (thorough 3000) random trees, two thirds with token texts containing quotes, backslashes, control, multi-byte and U+2028 characters, "
              "each serialised in the four forms (plain, with resolver, with data, with data+resolver) under a random partial data assignment and read back "
@@ -188,7 +189,7 @@ PROPS = {
         assumptions=["JSON (serde_json) is not modelled: the model consumes and produces the event stream and data list; the harness converts both ways",
                      "token texts offered for kinds with static text equal that text (otherwise the builder's documented debug assertion fires in debug builds)",
                      "raw kinds in the input are valid for the user's Syntax (from_raw of a derived Syntax panics on unknown kinds; outside cstree's control)"],
-        not_yet_proved=["ser_red: the event stream computed by the Red-level serialiser (walk of preorder_with_tokens) equals serEv of the decorated reference tree (tied by correspondence)"],
+        not_yet_proved=[],
     ),
     "C17": dict(
         runs=runs([("probe:c17", "rustc")], [("probe:c17", "rustc")]),
